@@ -14,4 +14,6 @@ mod w8;
 #[cfg(kani)]
 mod c17p;
 #[cfg(kani)]
+mod c18;
+#[cfg(kani)]
 mod c20;
